@@ -5,7 +5,8 @@ PID = 'C08'
 
 
 def items():
-    out = [c for c in codecs.CONTRACTS if PID in c.props]
+    from contracts import partial
+    out = [c for c in codecs.CONTRACTS if PID in c.props] + partial.scenarios()
     for mod in (subpackets, messages, fingerprints, tpk):
         out += [s for s in mod.scenarios() if PID in getattr(s, 'props', ())]
     try:
